@@ -13,11 +13,15 @@ OVERLAY = {"core/syncx/verif_hooks.go": "/verif/harness/overlay/syncx/verif_hook
 KIND = {0: "GSF", 1: "GLC", 2: "GRM", 3: "GSF", 4: "GSF", 5: "GSF", 6: "GSF", 7: "GSF", 8: "GSF", 9: "GSF", 10: "GSF"}
 KNAME = {0: "sf.DoEx", 1: "lc.Do", 2: "rm.Get", 3: "sf.Do", 4: "collection.Cache.Take", 5: "cachenode.Take",
          6: "collection.Cache.Del", 7: "cachenode.Del", 8: "cachenode.TakeWithExpire", 9: "cachenode.storefault", 10: "cachenode.corrupt-entry"}
-EK = {"inv": 0, "fs": 1, "fe": 2, "ret": 3, "del": 5, "fault": 6}
+EK = {"inv": 0, "fs": 1, "fe": 2, "ret": 3, "del": 5, "fault": 6, "ctxdone": 7}
+CANCELED, DEADLINE, WCANCELED, WDEADLINE = 30, 31, 32, 33   # context.Canceled / DeadlineExceeded as outcomes, bare and %w-wrapped
+# the caller's own context (5th component of a cache node Take op)
+CTX_NONE, CTX_LIVE, CTX_CANCEL_IN_LOAD, CTX_DEADLINE_IN_LOAD, CTX_DONE = 0, 1, 2, 3, 4
 PANIC = -2      # err code: the user function panics (Model.epanic)
 NOTFOUND = 9    # err code: the cache node's not-found error (Check.enotfound)
 WNOTFOUND = 19  # the same, wrapped with %w by the loader: the node must treat it as not found (rendered as 9 for Coq)
 NIL = -1        # val: the user function returns a nil value (Model.vnil)
+COQ_ERR = {WNOTFOUND: NOTFOUND, WCANCELED: CANCELED, WDEADLINE: DEADLINE}   # what the wrapped sentinels must be taken for
 INST = 1000     # key // INST = instance of the primitive / cache (two instances per case)
 
 
@@ -93,7 +97,8 @@ class C07(Property):
         """kinds_keys_errs: per thread list of (kind, key, err[, val]); values are made unique unless given"""
         scripts = []
         for t, sc in enumerate(kinds_keys_errs):
-            scripts.append([[x[0], x[1], (x[3] if len(x) > 3 else 100 * (t + 1) + i + 1), x[2]] for i, x in enumerate(sc)])
+            scripts.append([[x[0], x[1], (x[3] if len(x) > 3 and x[3] is not None else 100 * (t + 1) + i + 1), x[2]]
+                            + ([x[4]] if len(x) > 4 else []) for i, x in enumerate(sc)])
         return scripts
 
     def corpus(self):
@@ -125,6 +130,19 @@ class C07(Property):
                    "sched": [0, 2, 1, 0, 2, 1, 0, 0]})
         # cache node: the stored entry does not unmarshal: dropped and reloaded inside the flight, joiners share the reload
         cs.append({"scripts": self._mk_scripts([[(5, 1, 0), (10, 1, 0), (5, 1, 0)], [(5, 1, 0)]]), "sched": [0, 0, 0, 0, 1, 0, 1]})
+        # cache node, callers with their own contexts: A leads and its context is cancelled / its deadline passes while its
+        # loader runs, B and C (live contexts / none) share the flight and must share A's context error without loading
+        for kind in (5, 8):
+            for cm, e in ((CTX_CANCEL_IN_LOAD, CANCELED), (CTX_DEADLINE_IN_LOAD, WDEADLINE), (CTX_LIVE, WCANCELED), (CTX_NONE, DEADLINE)):
+                cs.append({"scripts": self._mk_scripts([[(kind, 1, e, None, cm)], [(kind, 1, 0, None, CTX_LIVE)], [(5, 1, 0)],
+                                                        [(kind, 1, 0, None, CTX_LIVE)]]),
+                           "sched": [0, 1, 2, 0, 3, 1, 2, 3]})
+        # ... and a caller whose context is already done: fails before any loader runs
+        cs.append({"scripts": self._mk_scripts([[(5, 1, 0, None, CTX_DONE), (5, 1, 0, None, CTX_LIVE)], [(8, 1, 0, None, CTX_DONE)]]),
+                   "sched": [0, 1, 0, 0]})
+        # the context errors as plain outcomes of the function for the primitives and collection.Cache
+        for kind in (0, 1, 2, 4):
+            cs.append({"scripts": self._mk_scripts([[(kind, 1, CANCELED)], [(kind, 1, WDEADLINE)], [(kind, 1, 0)]]), "sched": [0, 1, 2, 0, 1, 2, 1, 2]})
         # LockedCalls: A runs, B queues, A finishes (B runs), C arrives while B runs, D arrives when all is over
         cs.append({"scripts": self._mk_scripts([[(1, 1, 0)], [(1, 1, 0)], [(1, 1, 0)], [(1, 1, 0)]]), "sched": [0, 1, 0, 2, 1, 2, 3, 3]})
         # a panicking leader with a waiter, then a fresh call: every primitive and both cache call sites
@@ -197,7 +215,16 @@ class C07(Property):
             cases.append({"scripts": self._mk_scripts([[(4, 1, e)] for e in errs(3, [0, 0, 0, 2, PANIC])]), "sched": sch})
         rng.shuffle(c3)
         for sch in c3[:25 if quick else 90]:
-            cases.append({"scripts": self._mk_scripts([[(rng.choice([5, 8]), 1, e)] for e in errs(3, [0, 0, 0, 2, NOTFOUND, PANIC])]), "sched": sch})
+            def node_op():
+                cm = rng.choice([CTX_NONE, CTX_LIVE, CTX_LIVE, CTX_CANCEL_IN_LOAD, CTX_DEADLINE_IN_LOAD])
+                if cm == CTX_CANCEL_IN_LOAD:
+                    e = rng.choice([CANCELED, WCANCELED])
+                elif cm == CTX_DEADLINE_IN_LOAD:
+                    e = rng.choice([DEADLINE, WDEADLINE])
+                else:
+                    e = rng.choice([0, 0, 0, 2, NOTFOUND, PANIC, CANCELED, WDEADLINE])
+                return (rng.choice([5, 8]), 1, e, None, cm)
+            cases.append({"scripts": self._mk_scripts([[node_op()] for _ in range(3)]), "sched": sch})
         # two instances of the primitive, same key string
         rng.shuffle(c3)
         for sch in c3[:30 if quick else 90]:
@@ -242,11 +269,18 @@ class C07(Property):
                 if rng.random() < 0.2:
                     ops.append((rng.choice([7, 7, 10]) if node else 6, key, 0))
                 elif node:
-                    ops.append((rng.choice([5, 5, 8]), key, rng.choice([0, 0, 0, 0, 2, NOTFOUND, NOTFOUND, WNOTFOUND, PANIC])))
-                elif rng.random() < 0.1 and not any(len(x) > 3 for y in sc for x in y) and not any(len(x) > 3 for x in ops):
+                    cm = rng.choice([CTX_NONE, CTX_NONE, CTX_LIVE, CTX_LIVE, CTX_CANCEL_IN_LOAD, CTX_DEADLINE_IN_LOAD, CTX_DONE])
+                    if cm == CTX_CANCEL_IN_LOAD:
+                        e = rng.choice([CANCELED, WCANCELED])
+                    elif cm == CTX_DEADLINE_IN_LOAD:
+                        e = rng.choice([DEADLINE, WDEADLINE])
+                    else:
+                        e = rng.choice([0, 0, 0, 0, 2, NOTFOUND, NOTFOUND, WNOTFOUND, PANIC, CANCELED, WDEADLINE])
+                    ops.append((rng.choice([5, 5, 8]), key, e, None, cm))
+                elif rng.random() < 0.1 and not any(len(x) > 3 and x[3] == NIL for y in sc for x in y) and not any(len(x) > 3 and x[3] == NIL for x in ops):
                     ops.append((4, key, 0, NIL))          # the loader returns (nil, nil): a cacheable value
                 else:
-                    ops.append((4, key - (1 if rng.random() < 0.15 else 0), rng.choice([0, 0, 0, 0, 2, 2, PANIC])))
+                    ops.append((4, key - (1 if rng.random() < 0.15 else 0), rng.choice([0, 0, 0, 0, 2, 2, PANIC, CANCELED, WDEADLINE])))
             sc.append(ops)
         if faulty:
             # one thread switches the store off and on again
@@ -271,11 +305,11 @@ class C07(Property):
             ops = []
             for _ in range(rng.choice([1, 1, 2, 2, 3])):
                 kind = rng.choice([0, 1, 2, 3]) if mode == "mix" else mode
-                err = rng.choice([0, 0, 0, 0, 1, 2, PANIC])
+                err = rng.choice([0, 0, 0, 0, 0, 1, 2, PANIC, PANIC, rng.choice([CANCELED, DEADLINE, WCANCELED, WDEADLINE])])
                 key = rng.randint(0 if rng.random() < 0.2 else 1, nkeys)     # key 0 = the empty string
                 op = (kind, key + (INST if two and rng.random() < 0.4 else 0), err)
-                if kind != 2 and err == 0 and rng.random() < 0.08 and not any(len(x) > 3 for y in sc for x in y) \
-                        and not any(len(x) > 3 for x in ops):
+                if kind != 2 and err == 0 and rng.random() < 0.08 and not any(len(x) > 3 and x[3] == NIL for y in sc for x in y) \
+                        and not any(len(x) > 3 and x[3] == NIL for x in ops):
                     op = op + (NIL,)                       # a function that returns (nil, nil)
                 ops.append(op)
             sc.append(ops)
@@ -364,7 +398,7 @@ class C07(Property):
             return "RmSeq %s %s" % (ops, ob)
         if obs.get("skipped"):
             return "Conc (mkCase [] false false [] [])"
-        scripts = clist([clist(["mkOp %s %s %s %s" % (KIND[o[0]], cz(o[1]), cz(o[2]), cz(NOTFOUND if o[3] == WNOTFOUND else o[3]))
+        scripts = clist([clist(["mkOp %s %s %s %s" % (KIND[o[0]], cz(o[1]), cz(o[2]), cz(COQ_ERR.get(o[3], o[3])))
                                 for o in sc]) for sc in case["scripts"]])
         steps = clist(["mkOStep %d%%nat %s %s %s" % (s["a"], cbool(s["skip"]),
                                                  clist(["%d%%nat" % t for t in s["order"]]),
@@ -409,6 +443,10 @@ class C07(Property):
             fs.append("has_notfound")
         if any(e[2] == 6 for e in obs.get("log", [])):
             fs.append("has_store_fault")
+        for m in sorted(set(o[4] for sc in case["scripts"] for o in sc if len(o) > 4 and o[4])):
+            fs.append("ctx=%s" % {1: "live", 2: "cancelled-in-load", 3: "deadline-in-load", 4: "already-done"}[m])
+        if any(o[3] in (CANCELED, DEADLINE, WCANCELED, WDEADLINE) for sc in case["scripts"] for o in sc):
+            fs.append("has_context_error_outcome")
         fs.append("steps<=%d" % (10 * (1 + len(obs.get("steps", [])) // 10)))
         if any(e[2] == 4 for e in obs.get("log", [])):
             fs.append("has_blocked")
@@ -470,7 +508,8 @@ class C07(Property):
             # more threads, same keys: contention
             c["scripts"] = c["scripts"] * rng.choice([1, 2, 3])
             # (no store faults in free mode: the executor's fault flag is not synchronised)
-            c["scripts"] = self._mk_scripts([[(o[0], o[1], o[3]) for o in sc if o[0] != 9] for sc in c["scripts"]])
+            c["scripts"] = self._mk_scripts([[(o[0], o[1], o[3]) + ((None, o[4]) if len(o) > 4 else ()) for o in sc if o[0] != 9]
+                                             for sc in c["scripts"]])
             c["scripts"] = [sc for sc in c["scripts"] if sc]
             c["sched"] = []
             c["free"] = True
